@@ -20,22 +20,28 @@ CFG = dict(
     assumptions=[
         "input bytes are arbitrary values in 0..255 (bytes_ok); amd64 (int = 64 bit, MaxSlice = 2^42, maxAlloc = 2^48)",
         "C04_b64_shift: encoding/base64 answers an error or at most len(p)/4*3 bytes and does not panic",
+        "C04_json_wellformed_any_client_strings: escape.JSON returns a JSON string literal (is_jstr); C04_json_wellformed: the leaves keep "
+        "their contracts (sess_okb), which the correspondence run evaluates on the leaves of every real Session it renders",
     ],
     level_text="Theorems over the Gallina model (Model/Decoders.v: total functions returning Ok/Err/Panic plus an allocation count; every index and "
                "slice expression of the Go code goes through bound-checked primitives) for ALL byte strings: no decoder panics (DNS transform "
                "decodePacket(s)/Read, ReadStringList and Bytes over a Chunk and over the stream reader, Packet.Unmarshal and UnmarshalStream, the "
                "seventeen c2/task/result decoders as instances of one counted-list combinator, Machine/Network/proxy data/readDeviceInfo, base64 "
-               "shift decode) and each allocates at most K*|input| + C with explicit constants (uniformly at most 128*|input| + 1 MiB, the rule "
-               "the harness applies to the implementation). The statements are about the tree after four fix: commits; the pinned-tree "
-               "definitions are kept and refuted by concrete witnesses. The model is tied to /repo by running ~9k generated cases (every "
+               "shift decode, receive()'s Multi container walk over bytes with nested containers and fragment dispatch) and each allocates at most "
+               "K*|input| + C with explicit constants (uniformly at most 128*|input| + 1 MiB, the rule the harness applies to the "
+               "implementation); the model loops never run out of fuel (termination of decodePacket(s), the list loops, the container walk); "
+               "the text Session.JSON writes is exactly one JSON value whenever its leaves keep their contracts, in particular for ALL "
+               "client-supplied strings given that escape.JSON returns a string literal. The statements are about the tree after five fix: "
+               "commits; the pinned-tree definitions are kept and refuted by concrete witnesses. The model is tied to /repo by running ~11k generated cases (every "
                "truncation and single-byte mutation of count/length fields of valid messages, exhaustive short strings, random bytes) through "
                "the real decoders in a child process and through the same Gallina definitions inside Coq (outcome class, digest of the decoded "
                "value, allocation class). The whole listener path (handle -> readPacket -> transform/wrapper -> Unmarshal -> talk/talkSub -> "
                "readDeviceInfo/resolve/process -> receive (Multi, Frag) -> event handlers, and the JSON view of every Session created) is "
                "exercised oracle-only on ~8k hostile connections over 13 wrapper/transform profiles, before and after registration.",
     level_note="Proof is about the model; the tie to the code is differential (its strength is that of the generator, distribution in the evidence). "
-               "NOT modelled (oracle-only through the real handler): the Multi/Frag dispatch of receive, tag resolution, the CBK/XOR/AES/hex/zlib "
-               "wrappers, Session.JSON (checked with encoding/json.Valid on every Session the hostile input created). Two known findings: the "
+               "NOT modelled (oracle-only through the real handler): processMultiple/talkSub, tag resolution, key exchange, the "
+               "CBK/XOR/AES/hex/zlib wrappers; the JSON grammar jvalk is a hand-written transcription of RFC 8259 (the real output is also checked "
+               "with encoding/json.Valid on every Session a hostile input created). Two known findings: the "
                "stream reader allocates what a length prefix says (not reachable from a listener), and a compressing wrapper inflates before any "
                "size check (up to 1032:1). Trusted: Coq kernel+vm_compute, the harness and its allocation measurement, the stdlib decoders. No axioms.",
 )
